@@ -26,12 +26,18 @@ Definition robs_ok (r : list delivery * option exn) (o : robs) : bool :=
   && forallb (fun p => list_eqb msg_eqb (to_conn (fst p) (fst r)) (snd p)) (r_sent o)
   && Nat.eqb (length (fst r)) (fold_left (fun n p => n + length (snd p)) (r_sent o) 0).
 
+(* activate / deactivate requests: whether the dispatcher accepts them (unknown or internal module, unknown parameter)
+   is decided by code of property C08, not modelled here; the exception class observed for such a request is therefore
+   not compared.  Everything else is: no log message to anybody, the table untouched (every later emission is compared). *)
+Definition obs_for (o : op) (ob : robs) : robs :=
+  if is_activation o then {| r_exc := None; r_sent := r_sent ob |} else ob.
+
 Fixpoint route_check (mods : list name) (t : table) (ops : list op) (os : list robs) : bool :=
   match ops, os with
   | [], [] => true
   | o :: ops', ob :: os' =>
       let '(t', r) := step mods t o in
-      robs_ok r ob && route_check mods t' ops' os'
+      robs_ok r (obs_for o ob) && route_check mods t' ops' os'
   | _, _ => false
   end.
 
